@@ -536,6 +536,12 @@ def run(ctx: Ctx):
     ctx.guard(rule_backscan, ctx, "R-C17-4", False)
 
     ctx.guard(rule_append_order, ctx, "R-C17-3")
+    # the pin cite / parenthetical of short, supra and id. forms lie inside the full span only if the extent added for them starts where the
+    # scanned text starts (shared with C02)
+    from .c02 import rule_group_anchoring
+    from .. import materialize
+
+    ctx.guard(rule_group_anchoring, ctx, materialize.load(ctx.repo.root), "R-C17-5")
     ctx.floor("R-C17-1", 25)
     ctx.floor("R-C17-2", 5)
     ctx.floor("R-C17-3", 5)
